@@ -377,11 +377,26 @@ impl<'a, 'tcx> Cx<'a, 'tcx> {
         Some(out)
     }
 
+    /// constant with, for references to named `const` items, the item's path (so that its evaluated value can be
+    /// looked up in the crate-level constant table whatever its type)
+    fn constant_named(&self, c: &Const<'tcx>) -> String {
+        let base = self.constant(c);
+        if let Const::Unevaluated(uv, _) = c {
+            if uv.promoted.is_none() {
+                let name = self.tcx.def_path_str(uv.def);
+                if base.ends_with('}') {
+                    return format!("{},\"def\":{}}}", &base[..base.len() - 1], esc(&name));
+                }
+            }
+        }
+        base
+    }
+
     fn operand(&self, o: &Operand<'tcx>) -> String {
         match o {
             Operand::Copy(p) => format!("{{\"c\":{}}}", self.place(p)),
             Operand::Move(p) => format!("{{\"m\":{}}}", self.place(p)),
-            Operand::Constant(c) => format!("{{\"k\":{}}}", self.constant(&c.const_)),
+            Operand::Constant(c) => format!("{{\"k\":{}}}", self.constant_named(&c.const_)),
             #[allow(unreachable_patterns)]
             _ => "{\"k\":{\"s\":\"?\"}}".to_string(),
         }
@@ -721,8 +736,43 @@ impl rustc_driver::Callbacks for Cb {
                     if n > (1 << 20) {
                         continue;
                     }
-                    // raw bytes only when the allocation holds no pointers
-                    if !a.provenance().ptrs().is_empty() {
+                    // `&[u8]` / `&str` stored as a fat pointer: follow it
+                    let is_byte_slice = match ty.kind() {
+                        ty::Ref(_, inner, _) => match inner.kind() {
+                            ty::Str => true,
+                            ty::Slice(e) => *e == tcx.types.u8,
+                            _ => false,
+                        },
+                        _ => false,
+                    };
+                    let o0 = offset.bytes_usize();
+                    if is_byte_slice && n == 16 && o0 + 16 <= a.len() {
+                        let mut target = None;
+                        for (poff, pprov) in a.provenance().ptrs().iter() {
+                            if poff.bytes_usize() == o0 {
+                                target = Some(pprov.alloc_id());
+                            }
+                        }
+                        let raw = a.inspect_with_uninit_and_ptr_outside_interpreter(o0..o0 + 16);
+                        let mut b8 = [0u8; 8];
+                        b8.copy_from_slice(&raw[0..8]);
+                        let toff = u64::from_le_bytes(b8) as usize;
+                        b8.copy_from_slice(&raw[8..16]);
+                        let tlen = u64::from_le_bytes(b8) as usize;
+                        let mut done = None;
+                        if let Some(tid) = target {
+                            if let rustc_middle::mir::interpret::GlobalAlloc::Memory(m) = tcx.global_alloc(tid) {
+                                let ta = m.inner();
+                                if toff + tlen <= ta.len() && ta.provenance().ptrs().is_empty() {
+                                    done = Some(hex(ta.inspect_with_uninit_and_ptr_outside_interpreter(toff..toff + tlen)));
+                                }
+                            }
+                        }
+                        match done {
+                            Some(h) => format!("\"bytes\":\"{}\"", h),
+                            None => format!("\"ptrs\":true"),
+                        }
+                    } else if !a.provenance().ptrs().is_empty() {
                         format!("\"ptrs\":true")
                     } else {
                         let bytes = a.inspect_with_uninit_and_ptr_outside_interpreter(offset.bytes_usize()..offset.bytes_usize() + n);
